@@ -188,8 +188,15 @@ class SymWorld:
     def assume(self, cond):
         self.ctx.assume(cond)
 
-    def prove(self, cond, label, detail=None):
-        return self.ctx.prove(cond, label, detail)
+    def prove(self, cond, label, detail=None, model_only=False):
+        """model_only=True: the path contains havoc'd values (e.g. an arbitrary pseudo-inverse) that no concrete run is
+        obliged to realise; a counterexample that does not replay is then reported as unconfirmed, not as a harness error"""
+        n0 = len(self.ctx.res.obligations)
+        r = self.ctx.prove(cond, label, detail)
+        if model_only:
+            for ob in self.ctx.res.obligations[n0:]:
+                ob.model_only = True
+        return r
 
     def witness(self, label='reachable'):
         return self.ctx.witness(label)
@@ -373,7 +380,7 @@ class ConcreteWorld:
         if not cond:
             raise HarnessReject('assumption false on concrete inputs')
 
-    def prove(self, cond, label, detail=None):
+    def prove(self, cond, label, detail=None, model_only=False):
         ok = bool(cond)
         self.checked.append(label)
         if not ok:
